@@ -81,6 +81,10 @@ func c11(c *core.Ctx) string {
 	c11Isolation(c)
 	muxCacheFresh(c, "R-C11-6")
 	c11SpecEquals(c)
+	// a filter update must be seen by new requests: the default policy reference takes part in the same-policy test (shared with R-C09-6)
+	c.Alias("R-C09-6", "R-C11-9")
+	c09DefaultRef(c)
+	c.Alias("R-C09-6", "")
 	// removing one object must not make another unavailable: the namespace-removal rule of C20
 	c.Alias("R-C20-5", "R-C11-8")
 	c20Namespaces(c)
